@@ -10,3 +10,5 @@ import LP.Props.C13
 #print axioms LP.Gen.table_eq
 #print axioms LP.Gen.intervalCmp_eq
 #print axioms LP.Gen.icmp_enum_order
+#print axioms LP.Gen.cmpLowerBounds_eq
+#print axioms LP.Gen.cmpUpperBounds_eq
